@@ -291,7 +291,8 @@ static string DdText(const Scenario& sc, const string& dd) {
 }
 
 // later versions are shorter: a response file written over a leftover one must not keep the old tail
-static string RspContent(const Stmt& s) { return "rsp-e" + to_string(s.id) + "-v" + to_string(s.rspver) + string(5 * std::max(0, 3 - s.rspver), 'x'); }
+// (version 0: a content that evaluates to nothing - the response file is written all the same, empty)
+static string RspContent(const Stmt& s) { if (s.rspver == 0) return ""; return "rsp-e" + to_string(s.id) + "-v" + to_string(s.rspver) + string(5 * std::max(0, 3 - s.rspver), 'x'); }
 static string RspPath(const Stmt& s) { return (s.badrspdir ? string("nodir/") : string("")) + s.outs[0] + ".rsp"; }
 
 static string RenderManifest(const Scenario& sc) {
@@ -307,7 +308,7 @@ static string RenderManifest(const Scenario& sc) {
     // statements with an even number bind `deps` themselves (below), the others get it from their rule
     if (s.deps == "gcc" && s.id % 2) m += "  deps = gcc\n";
     if (s.deps == "msvc" && s.id % 2) m += "  deps = msvc\n";
-    if (s.rsp) m += "  rspfile = " + RspPath(s) + "\n  rspfile_content = " + RspContent(s) + "\n";
+    if (s.rsp) m += "  rspfile = " + RspPath(s) + "\n  rspfile_content = " + (s.rspver == 0 ? string("$nothing") : RspContent(s)) + "\n";
   }
   for (auto& s : sc.stmts) {
     m += "build " + Join(s.outs);
@@ -473,6 +474,16 @@ struct ModelRunner : public CommandRunner {
          ",\"pools\":" + pools + ",\"fifo\":" + to_string(tok) + "}");
     // Edits made while commands are running.
     for (auto& er : g_inv->editrun) {
+      if (er.first == g_inv->starts && !er.second.empty() && er.second.back() == '/') {
+        // a directory (name with a trailing slash) is removed with everything in it while the build runs
+        string dir = er.second.substr(0, er.second.size() - 1);
+        for (auto it = g_disk.files.begin(); it != g_disk.files.end();)
+          if (it->first.compare(0, er.second.size(), er.second) == 0) { g_disk.J("{\"j\":\"rm\",\"n\":" + JEsc(it->first) + "}"); it = g_disk.files.erase(it); } else ++it;
+        g_disk.dirs.erase(dir);
+        g_disk.J("{\"j\":\"rmdir\",\"n\":" + JEsc(dir) + "}");
+        Emit("{\"e\":\"EditRun\",\"f\":" + JEsc(er.second) + ",\"m\":" + to_string(g_disk.clock) + "}");
+        continue;
+      }
       if (er.first == g_inv->starts) {
         auto f = g_disk.files.find(er.second);
         string old = f == g_disk.files.end() ? "" : f->second.content;
@@ -1003,6 +1014,7 @@ static ChildResult RunChild(const function<void()>& body) {
       if (k == "w") { g_disk.files[j["n"].s] = MFile{j["m"].num(), j["c"].s, j["t"].boolean()}; g_disk.clock = max<int64_t>(g_disk.clock, j["m"].num()); }
       else if (k == "rm") g_disk.files.erase(j["n"].s);
       else if (k == "dir") g_disk.dirs.insert(j["n"].s);
+      else if (k == "rmdir") g_disk.dirs.erase(j["n"].s);
       else if (k == "clk") g_disk.clock = max<int64_t>(g_disk.clock, j["v"].num());
       else if (k == "ch") { g_ch.taken.push_back((int)j["c"].num()); g_ch.arity.push_back((int)j["a"].num()); g_ch.rng = (unsigned)j["r"].num(); }
     } else if (line.compare(0, 17, "{\"e\":\"ChildExit\",") == 0) {
@@ -1230,7 +1242,7 @@ static void RunOnce(Scenario sc /* by value: versions change */, long run_no, in
       for (auto& s : sc.stmts) if (s.id == step["s"].num()) ++s.ver;
       WriteManifest(sc);
     } else if (op == "rspver") {
-      for (auto& s : sc.stmts) if (s.id == step["s"].num()) ++s.rspver;
+      for (auto& s : sc.stmts) if (s.id == step["s"].num()) { if (step["to"].t == JV::Num) s.rspver = (int)step["to"].num(); else ++s.rspver; }
       WriteManifest(sc);
     } else if (op == "verback") {
       // the command line and response file the statement had at first
